@@ -26,12 +26,31 @@ fn int_boundaries_i128() -> Vec<i128> {
     v
 }
 
+/// Integers next to the rounding ties of int -> f32 / f64: 2^k + m*2^(k-p+1) + 2^(k-p) + d for p = 24, 53 mantissa bits,
+/// three mantissa patterns m and d in {-1, 0, 1}.  d = 0 is the exact tie (to even); d = +-1 decides the direction, and a
+/// conversion that rounds twice (through f64 on the way to f32) loses d.
+fn float_tie_neighbours_i128() -> Vec<i128> {
+    let mut v = vec![];
+    for p in [24u32, 53] {
+        for k in p + 1..=63 {
+            for m in [0i128, (1i128 << (p - 1)) - 1, 0x5_a5a5_a5a5_a5a5 & ((1i128 << (p - 1)) - 1)] {
+                for d in -1..=1 {
+                    let x = (1i128 << k) + (m << (k - p + 1)) + (1i128 << (k - p)) + d;
+                    v.push(x);
+                    v.push(-x);
+                }
+            }
+        }
+    }
+    v
+}
+
 macro_rules! srcdom_int {
     ($t:ty, $small:expr) => {
         impl SrcDom for $t {
             const SMALL_BITS: u32 = $small;
             fn boundary_values() -> Vec<Self> {
-                let mut v: Vec<$t> = int_boundaries_i128().into_iter().filter(|x| *x >= <$t>::MIN as i128 && *x <= <$t>::MAX as i128).map(|x| x as $t).collect();
+                let mut v: Vec<$t> = int_boundaries_i128().into_iter().chain(float_tie_neighbours_i128()).filter(|x| *x >= <$t>::MIN as i128 && *x <= <$t>::MAX as i128).map(|x| x as $t).collect();
                 v.push(<$t>::MIN);
                 v.push(<$t>::MAX);
                 v.sort();
